@@ -178,7 +178,9 @@ func VerifH_range_step() {
 	req, resp, _ := w.request()
 	tBefore := time.Now()
 
+	vnd.Share("range", w.p)
 	r, stop := w.p.Handler4(req, resp)
+	vnd.Unshare()
 
 	vnd.Assert(vnd.HeldLocks() == 0, "C16 range plugin lock released")
 	post := w.alloc.VerifWords()
